@@ -34,7 +34,7 @@ CHECKS['C08'] = dict(text='Symbolic execution of enum_definition::build for 1..3
              design='4/C08')
 CHECKS['C12'] = dict(text='The templates are re-run with every numeric unconstrained (64-bit, negatives included); any path ending in a panic or '
              'exhausting the step budget is reported with a solver-produced description that is replayed on the native build.',
-             note='semantic layer only (parser, file I/O outside); field/variant counts bounded; two-field layouts fix the two extern alignments per slice to boundary pairs (two unconstrained 64-bit alignments through gcd/lcm do not finish in the solver); nested types with unconstrained numerics are not covered (that slice never finished and was removed; nested types keep C02's bounded numerics and a zero-length slice here); a path whose feasibility the solver cannot decide within its time limit is reported as inconclusive, not as pass',
+             note='semantic layer only (parser, file I/O outside); field/variant counts bounded; two-field layouts fix the two extern alignments per slice to boundary pairs (two unconstrained 64-bit alignments through gcd/lcm do not finish in the solver); nested types with unconstrained numerics are not covered (that slice never finished and was removed; nested types keep the bounded numerics of C02 and a zero-length slice here); a path whose feasibility the solver cannot decide within its time limit is reported as inconclusive, not as pass',
              design='4/C12')
 CHECKS['C04'] = dict(text='Symbolic execution of the vftable construction for 1..4 virtual functions (free signatures up to 2) with symbolic #[index] and table #[size]: '
              'on accepted paths z3 proves every declared function sits in its slot (index, else predecessor+1), all other slots are private thiscall '
